@@ -95,6 +95,42 @@ def shared_code_objects(all_codes):
     return out
 
 
+MUTATORS = frozenset({"append", "extend", "insert", "pop", "remove", "clear", "update", "setdefault", "sort", "add", "discard", "popitem", "reverse"})
+_STORE_OPS = frozenset({"STORE_ATTR", "DELETE_ATTR", "STORE_SUBSCR", "DELETE_SUBSCR"})
+
+
+def writer_code_objects(all_codes):
+    """Code objects that write to heap objects after construction: attribute/subscript stores or a
+    mutating method called on an attribute-held container. Any memo, cache or per-call scratch state
+    that ends up on a shared instance is written by such a function."""
+    import dis
+
+    out = set()
+    for code in all_codes:
+        if code.co_name in ("__init__", "__post_init__", "__new__", "<module>"):
+            continue
+        prev = None
+        for ins in dis.get_instructions(code):
+            if ins.opname in _STORE_OPS:
+                out.add(code)
+                break
+            if ins.opname == "LOAD_ATTR" and prev is not None and prev.opname == "LOAD_ATTR" and ins.argval in MUTATORS:
+                out.add(code)
+                break
+            prev = ins
+    return out
+
+
+def line_table(codes):
+    """All 'file:line' locations of the given code objects."""
+    out = set()
+    for code in codes:
+        for _, _, line in code.co_lines():
+            if line is not None:
+                out.add(short_loc(code, line))
+    return out
+
+
 def short_loc(code, line):
     fn = code.co_filename
     i = fn.rfind("/xsdata/")
@@ -106,7 +142,7 @@ class Aborted(BaseException):
 
 
 class Scheduler:
-    def __init__(self, nthreads, rng=None, schedule=None, p_preempt=0.3, loc_cap=2, max_switches=64, step_cap=5_000_000):
+    def __init__(self, nthreads, rng=None, schedule=None, p_preempt=0.3, loc_cap=2, max_switches=64, step_cap=5_000_000, hot=(), p_hot=0.9):
         self.n = nthreads
         self.rng = rng
         self.explicit = schedule is not None
@@ -117,6 +153,9 @@ class Scheduler:
         self.steps = 0
         self.current = None
         self.p = p_preempt
+        self.hot = frozenset(hot)
+        self.p_hot = p_hot
+        self.hot_hits = 0
         self.loc_cap = loc_cap
         self.max_switches = max_switches
         self.step_cap = step_cap
@@ -170,7 +209,9 @@ class Scheduler:
                 key = (t, loc)
                 hits = self.loc_hits.get(key, 0)
                 if hits < self.loc_cap:
-                    if self.rng.random() < self.p:
+                    is_hot = loc in self.hot
+                    if self.rng.random() < (self.p_hot if is_hot else self.p):
+                        self.hot_hits += is_hot
                         self.loc_hits[key] = hits + 1
                         others = self.runnable(t)
                         if others:
@@ -239,6 +280,37 @@ class Monitor:
         for code in self.codes:
             mon.set_local_events(TOOL, code, 0)
         mon.free_tool_id(TOOL)
+
+
+class CoverageCollector:
+    """Which lines of the runtime does a call execute? Each location reports once (DISABLE)."""
+
+    def __init__(self, codes):
+        self.codes = codes
+        self.locs = set()
+        self.by_code = {}
+
+    def install(self):
+        locs = self.locs
+        by_code = self.by_code
+        tool = mon.COVERAGE_ID
+
+        def on_line(code, line):
+            loc = short_loc(code, line)
+            locs.add(loc)
+            by_code.setdefault(code, set()).add(loc)
+            return mon.DISABLE
+
+        mon.use_tool_id(tool, "xsv-cov")
+        mon.register_callback(tool, mon.events.LINE, on_line)
+        for code in self.codes:
+            mon.set_local_events(tool, code, mon.events.LINE)
+
+    def uninstall(self):
+        tool = mon.COVERAGE_ID
+        for code in self.codes:
+            mon.set_local_events(tool, code, 0)
+        mon.free_tool_id(tool)
 
 
 class StepCounter:
